@@ -81,6 +81,10 @@ def run(pid, tier):
                 ls.append('G %d -' % szx)
                 if all(c.isalnum() or c in '=*/.-' for c in f):
                     ls.append('G %d %s' % (szx, hx(f)))
+                    if szx == 0:
+                        # the filtered and the unfiltered listing fetched at the same time by one peer, block by block in turn: each is its own listing
+                        ls.append('G %d - %s' % (szx, hx(f)))
+                        ls.append('G %d %s -' % (szx, hx(f)))
             ls.append('E')
             cases.append((cid, ls))
     # big tables: windows are quadratic; cap by dropping window sweeps for listings beyond a size in quick tier is NOT done:
